@@ -14,4 +14,5 @@ let table : (string * (Model.sx -> Model.sx)) list = [
   "signbytes", Model.check_signbytes;
   "rlp", Model.check_rlp;
   "consensus", Model.check_consensus;
+  "trie", Model.check_trie;
 ]
